@@ -60,6 +60,7 @@ type twkbCase struct {
 	Close         bool
 	IDs           []int64
 	DistinctClose bool
+	Wide          bool   `json:"wide,omitempty"` // Idx addresses wideGeoms(CT) instead of a structural shape
 	Hex           string `json:"hex,omitempty"`
 }
 
@@ -493,6 +494,28 @@ func c07Main(r *engine.Run) {
 			r.Sample("twkb", twkbCase{D: d, W: w, Idx: i, Shape: s.String(), CT: 3, Frame: 1, PrecXY: 0, PrecZ: 2, PrecM: 5, Size: true, BBox: true})
 		}
 	})
+	// wide collections (33..500 direct members): counts, ID lists and sizes beyond one varint byte
+	for _, ct := range allCT {
+		for i, g := range wideGeoms(ct) {
+			nm, _ := numMembers(g)
+			ids := make([]int64, nm)
+			for k := range ids {
+				ids[k] = int64(k*37 - 1000)
+			}
+			for _, pxy := range []int{0, 2} {
+				for mask := 0; mask < 8; mask += 7 {
+					for _, idl := range [][]int64{nil, ids} {
+						c := twkbCase{Idx: i, Shape: fmt.Sprintf("wide #%d (%s, %d members)", i, g.Type(), nm), CT: int(ct), PrecXY: pxy, PrecZ: 1, PrecM: 1,
+							Size: mask&1 != 0, BBox: mask&2 != 0, Close: mask&4 != 0, IDs: idl, Wide: true}
+						if p := engine.SafeCall(func() { c07One(r, g, c) }); p != nil {
+							r.Violation("C07/panic", "twkb", c, fmt.Sprint(p))
+						}
+					}
+				}
+			}
+		}
+	}
+	r.Bound("wide collections (33..500 direct members) × 4 ctypes × precisions {0,2} × {no options, all options} × {no IDs, full ID list}")
 	r.Extra["cases_where_rounding_made_the_geometry_invalid"] = roundingCollapsed.Load()
 	if done {
 		r.Bound(fmt.Sprintf("S(%d,%d) = %d shapes × 4 ctypes × %d frames × precXY %v × precZ/M %v × 8 option subsets × ID lists", d, w, len(shapes), len(frames), precXY, precZM))
@@ -511,8 +534,13 @@ func c07Replay(r *engine.Run, sub string, raw json.RawMessage) error {
 	if err := json.Unmarshal(raw, &c); err != nil {
 		return err
 	}
-	shapes := universe.Shapes(c.D, c.W)
-	g := universe.Build(shapes[c.Idx], geom.CoordinatesType(c.CT), &twkbSupplier{frame: c.Frame, distinctClose: c.DistinctClose})
+	var g geom.Geometry
+	if c.Wide {
+		g = wideGeoms(geom.CoordinatesType(c.CT))[c.Idx]
+	} else {
+		shapes := universe.Shapes(c.D, c.W)
+		g = universe.Build(shapes[c.Idx], geom.CoordinatesType(c.CT), &twkbSupplier{frame: c.Frame, distinctClose: c.DistinctClose})
+	}
 	c.Hex = ""
 	c07One(r, g, c)
 	return nil
